@@ -34,6 +34,13 @@ def afOnlyPacket (pid cc : Nat) : Packet :=
     header := { continuityCounter := cc, hasAdaptationField := true, hasPayload := false, payloadUnitStartIndicator := false,
                 pid := pid, transportErrorIndicator := false, transportPriority := false, transportScramblingControl := 0 } }
 
+/-- adaptation-field-only packet carrying a PCR, optionally announcing a (time-base) discontinuity -/
+def afOnlyPCRPacket (pid cc : Nat) (di : Bool) (base : Nat) : Packet :=
+  { adaptationField := some { discontinuityIndicator := di, hasPCR := true, pcr := some { base := base, extension := 0 },
+                              length := 183, stuffingLength := 176 }, payload := [],
+    header := { continuityCounter := cc, hasAdaptationField := true, hasPayload := false, payloadUnitStartIndicator := false,
+                pid := pid, transportErrorIndicator := false, transportPriority := false, transportScramblingControl := 0 } }
+
 def teiPacket (pid : Nat) (junk : Bytes) : Packet :=
   { adaptationField := none, payload := junk,
     header := { continuityCounter := 9, hasAdaptationField := false, hasPayload := true, payloadUnitStartIndicator := true,
@@ -74,6 +81,36 @@ def runC08 (t : Tier) : Emit Unit := do
       emit "C08" (demuxCase big { view := .perpid, size := 188 + k, chunks := [97] } none (some exp) "oversize-explicit")
       if k ≤ 4 then
         emit "C08" (demuxCase big { view := .perpid, size := 0, kind := .bufio } none (some exp) "oversize-auto")
+  -- auto-detection on a reader that can be neither rewound nor peeked (plain reader, bufio.Reader with a small buffer):
+  -- by design the two first packets are spent on the detection and the reader is re-synchronised on the third one; from there
+  -- on the packets are those of the explicit-size run. Frames of 188..192 bytes.
+  for i in [0:(if t.quick then 2 else 10)] do
+    let m ← liftGen (smallStream i)
+    for k in [0, 1, 2, 3, 4] do
+      let big := if k = 0 then m.bytes else expandStream m.packets k 0xab
+      let ref := demuxCase big { view := .items, packetAPI := true, size := 188 + k } none none "ref"
+      let expItems := "|".intercalate ((ref.model.splitOn "|").drop 2)
+      for kind in [ReaderKind.plain, .bufioSmall] do
+        emit "C08" (demuxCase big { view := .items, packetAPI := true, size := 0, kind := kind, chunks := [61] } none (some expItems) "auto-unpeekable-reader")
+      -- and the readers that can be rewound / peeked lose nothing
+      for kind in [ReaderKind.seek, .bufio] do
+        emit "C08" (demuxCase big { view := .items, packetAPI := true, size := 0, kind := kind } none (some ref.model) "auto-equals-explicit-packets")
+  -- 188-byte packets with sync-byte values right behind the second packet's sync byte (PID 0x0047, payload bytes 0x47)
+  for _ in [0:(if t.quick then 3 else 12)] do
+    let n ← liftGen (randRange 200 500)
+    let data := List.replicate n 0x47
+    let hdr : PESHeader := { streamID := 0xe0, optionalHeader := some { markerBits := 2 }, packetLength := 0 }
+    let pes := pesEncode hdr 0 data
+    let pid ← liftGen (pick [0x0047, 0x0100, 0x0747])
+    let rest := pes.length - 184
+    let u : TSUnit := { pid := pid, payload := pes, psi := false, data := [{ pes := some { data := data, header := hdr } }],
+                        chunks := [184] ++ (List.replicate (rest / 184) 184) ++ (if rest % 184 = 0 then [] else [rest % 184]) }
+    let v ← liftGen (genPESUnit pid 200)
+    let ms : StreamModel := { units := [u, v], schedule := [] }
+    let ref := demuxCase ms.bytes { view := .items, packetAPI := true } none none "ref"
+    for kind in [ReaderKind.seek, .bufio] do
+      emit "C08" (demuxCase ms.bytes { view := .items, packetAPI := true, size := 0, kind := kind } none (some ref.model) "auto-sync-values-after-second-sync")
+    emit "C08" (demuxCase ms.bytes { view := .perpid, size := 0 } none (some (expectedStr ms)) "auto-sync-values-after-second-sync-data")
   -- adversarial (known finding): 192-byte frames with a sync byte among the extra bytes; a single-packet stream
   for _ in [0:3] do
     let m ← liftGen (smallStream 1)
@@ -162,6 +199,17 @@ def runC03 (t : Tier) : Emit Unit := do
       let st : Spec.StreamModel := { units := [patUnit, u], schedule := [] }
       emit "C03" (outcomesCase st.bytes {} "descriptor-length-vs-tag")
       emit "C03" (demuxCase st.bytes { view := .seq } none none "descriptor-length-vs-tag-seq")
+  -- PES units whose length fields contradict each other and the unit (PES_packet_length x PES_header_data_length x
+  -- flags x unit size), one unit per stream
+  for sid in [0xe0, 0xc0, 0xbd] do
+    for plen in [0, 3, 9, 0xffff] do
+      for hdl in [0, 5, 10, 0xc8, 0xff] do
+        for flags in [0x00, 0x80, 0xc0, 0x3f] do
+          let body ← liftGen (randBytes (if hdl % 2 = 0 then 4 else 30))
+          let unit : Bytes := [0, 0, 1, sid, plen / 256, plen % 256, 0x80, flags, hdl] ++ body
+          let u : Spec.TSUnit := { pid := 0x100, payload := unit, data := [], psi := false, chunks := [unit.length] }
+          let st : Spec.StreamModel := { units := [u], schedule := [] }
+          emit "C03" (demuxCase st.bytes { view := .seq } none none "pes-length-fields")
   -- with a skipper and with custom parsers
   for i in [0:(if t.quick then 6 else 30)] do
     let m ← liftGen (smallStream i)
@@ -215,13 +263,13 @@ def runC19 (t : Tier) : Emit Unit := do
     let somePids ← liftGen (do let k ← randRange 1 pids.length; pure (pids.take k))
     let cc ← liftGen (randBelow 16)
     let specs : List (SkipSpec × String) :=
-      [(.pids somePids, "skip-pids"), (.cc cc, "skip-cc"), (.pusi, "skip-pusi"), (.af, "skip-af"), (.script script, "skip-script"),
+      [(.pids somePids, "skip-pids"), (.cc cc, "skip-cc"), (.pusi, "skip-pusi"), (.af, "skip-af"), (.afContent, "skip-af-content"), (.script script, "skip-script"),
        (.script (List.replicate n true), "skip-all"), (.script [], "skip-none")]
     for (sk, tag) in specs do
       -- the filtered stream, demuxed without a skipper, is the reference
       let decide : Packet → Nat → Bool := fun p idx => match sk with
         | .pids l => l.contains p.header.pid | .cc v => p.header.continuityCounter == v | .pusi => p.header.payloadUnitStartIndicator
-        | .af => p.header.hasAdaptationField | .script ds => ds.getD idx false | .none => false
+        | .af => p.header.hasAdaptationField | .afContent => afContentPred p | .script ds => ds.getD idx false | .none => false
       let kept := (ps.zipIdx.filter fun (p, idx) => !decide p idx).map (·.1)
       let ref := demuxCase (bytesOf kept) { view := .perpid } none none "ref"
       emit "C19" (demuxCase bs { view := .perpid, skipper := sk } none (some ref.model) tag)
@@ -291,6 +339,26 @@ def runC20 (t : Tier) : Emit Unit := do
         let calls := List.replicate 3 Call.next ++ [Call.rewind] ++ List.replicate 2 Call.next ++ [Call.rewind, Call.rewind] ++ List.replicate (total + 1) Call.next
         emit "C20" (demuxCase bs { cfg with view := .seq } (some calls)
           (some ("|".intercalate (freshS.take 3 ++ ["rewind:0@0"] ++ freshS.take 2 ++ ["rewind:0@0", "rewind:0@0"] ++ freshS) ++ ";skip=[];parser=[];stable=true")) "rewind-repeated")
+
+/-- explicit packet sizes that auto-detection could not find again (204-byte frames; a stream of one packet): Rewind keeps
+the configured size -/
+def runC20sizes (t : Tier) : Emit Unit := do
+  for i in [0:(if t.quick then 2 else 8)] do
+    let m ← liftGen (smallStream i)
+    let big := expandStream m.packets 16 0xab
+    let one := (m.bytes.take 188)
+    for (bs, size, tag) in [(big, 204, "rewind-explicit-204"), (one, 188, "rewind-explicit-single-packet")] do
+      for api in [false, true] do
+        let cfg : DemuxCfg := { size := size, packetAPI := api }
+        let total := callsToEOF (mkDemux bs cfg) api (bs.length / 188 + 8) 0
+        let (fresh, _) := runCalls (mkDemux bs cfg) api (List.replicate (total + 1) Call.next)
+        let freshS := fresh.map (·.show .seek)
+        for k in [0:total + 2] do
+          if t.quick && k % 4 != 0 && k != total then continue
+          let calls := List.replicate k Call.next ++ [Call.rewind] ++ List.replicate (total + 1) Call.next
+          let spec := "|".intercalate (freshS.take k ++ (List.replicate (k - freshS.length) "err:eof@" |>.map (· ++ toString bs.length))
+            ++ ["rewind:0@0"] ++ freshS) ++ ";skip=[];parser=[];stable=true"
+          emit "C20" (demuxCase bs { cfg with view := .seq } (some calls) (some spec) tag)
 
 /-- a long unit on the higher PID interleaved packet by packet with single-packet units on the lower PID: after k
 NextData calls the higher PID holds k-1 pending packets (more than 16: the continuity counter wraps) -/
@@ -367,7 +435,10 @@ def runC07 (t : Tier) : Emit Unit := do
           out := out ++ [nullPacket nullCC]; nullCC := (nullCC + 1) % 16
         else if k = 1 then
           match lastCC.find? (·.1 == p.header.pid) with
-          | some (_, cc) => out := out ++ [afOnlyPacket p.header.pid cc]
+          | some (_, cc) =>
+            let v ← liftGen (randBelow 3)
+            let base ← liftGen (randField 33)
+            out := out ++ [if v = 0 then afOnlyPacket p.header.pid cc else afOnlyPCRPacket p.header.pid cc (v = 2) base]
           | none => pure ()
         else if k = 2 then
           let junk ← liftGen (randBytes 184)
@@ -390,6 +461,20 @@ def runC07 (t : Tier) : Emit Unit := do
         else out := out ++ [p]
       let others := showPerPID (m.expected.filter (·.1 != victim)) 0 "eof" true
       emit "C07" (demuxCase (bytesOf out) { view := .perpid, exclude := [victim], noErr := true } none (some others) "corrupt-one-pid")
+    -- a PID whose LAST unit cannot be parsed (PES start code, PTS announced, header cut short) is still pending at the end of
+    -- the stream together with complete units of other PIDs, lower and higher: the end-of-stream drain delivers those
+    for victim in [0x0ff, 0x100, 0x180] do
+      let bad : Bytes := [0, 0, 1, 0xe0, 0, 0, 0x80, 0x80, 5, 0x21]
+      let u : Spec.TSUnit := { pid := victim, payload := bad, data := [], psi := false, chunks := [bad.length] }
+      let o1 ← liftGen (genPESUnit 0x0fe 300)
+      let o2 ← liftGen (genPESUnit 0x101 300)
+      let o3 ← liftGen (genPESUnit 0x1f0 300)
+      let units := [o1, o2, o3, u]
+      let perU := perPID units
+      let sched ← liftGen (shuffle ((perU.map fun (pid, pk, _) => List.replicate pk.length pid).flatten))
+      let mv : StreamModel := { units := units, schedule := sched }
+      let others := showPerPID (mv.expected.filter (·.1 != victim)) 0 "eof" true
+      emit "C07" (demuxCase mv.bytes { view := .perpid, exclude := [victim], noErr := true } none (some others) "unparseable-last-unit")
 
 /-! ### C16 (aliasing part) -/
 def runC16 (t : Tier) : Emit Unit := do
